@@ -79,6 +79,12 @@ func (s *httpProxy) Handle(ctx context.Context, conn net.Conn) error {
 			return err
 		}
 
+		if _, ok := req.Header["User-Agent"]; !ok {
+			// relay the request as sent: without this, Request.Write adds
+			// its own default User-Agent header
+			req.Header.Set("User-Agent", "")
+		}
+
 		reqBody := &bytes.Buffer{}
 
 		dsw := io.MultiWriter(conn2, reqBody)
